@@ -3,7 +3,11 @@
   (`ParseRecv.frame_cmninfo_encode/frame_chinfo_encode/frame_ack_encode`), the client-side
   decoders (`Parser.frame_cmninfo_decode/frame_chinfo_decode/frame_ack_decode`) and the derived
   attributes of `DDeviceChannelData` / `DDeviceData` (masks from `Gen.Record`).
-  Names are byte strings (UTF-8 of the text); the harness does the text conversion.
+  Names are byte strings on the wire.  The client decodes the WHOLE name field as strict UTF-8
+  (`_str.decode()`, CPython's default codec and error handler) before it cuts at the first NUL:
+  `validUtf8` is that decoder's acceptance condition, a field that is not well-formed UTF-8 makes
+  the decoder raise `UnicodeDecodeError` (`Err.unicodeError`), wherever the bad bytes are.
+  The device side encodes a text (`bytes(name, "utf-8")`): `utf8Encode` on code points.
 -/
 import NxsModel.Serial
 import NxsModel.Gen.Fmt
@@ -31,6 +35,59 @@ def isNumericalOf (t : Nat) : Bool := !(Gen.Record.nonNumerical.contains (dtypeO
 def divSupported (flags : Nat) : Bool := (flags &&& Gen.Record.divFlag) ≠ 0
 def ackSupported (flags : Nat) : Bool := (flags &&& Gen.Record.ackFlag) ≠ 0
 
+/-! ### UTF-8 (CPython's strict decoder / encoder) -/
+
+/-- continuation byte `10xxxxxx` -/
+def isCont (b : Byte) : Bool := 0x80 ≤ b.toNat && b.toNat ≤ 0xBF
+
+/-- does the strict UTF-8 decoder (`bytes.decode()`) accept the byte string?  Well-formed UTF-8
+    (Unicode table 3-7): no overlong forms (`C0`, `C1`, `E0 80..9F`, `F0 80..8F`), no surrogates
+    (`ED A0..BF`), nothing above U+10FFFF (`F4 90..`, `F5..FF`), no truncated sequence, no stray
+    continuation byte. -/
+def validUtf8 : Bytes → Bool
+  | [] => true
+  | b0 :: rest =>
+    let v := b0.toNat
+    if v < 0x80 then validUtf8 rest
+    else if v < 0xC2 then false
+    else if v < 0xE0 then
+      match rest with
+      | b1 :: r => isCont b1 && validUtf8 r
+      | _ => false
+    else if v < 0xF0 then
+      match rest with
+      | b1 :: b2 :: r =>
+        isCont b1 && isCont b2 && (v != 0xE0 || 0xA0 ≤ b1.toNat) && (v != 0xED || b1.toNat < 0xA0)
+          && validUtf8 r
+      | _ => false
+    else if v < 0xF5 then
+      match rest with
+      | b1 :: b2 :: b3 :: r =>
+        isCont b1 && isCont b2 && isCont b3 && (v != 0xF0 || 0x90 ≤ b1.toNat)
+          && (v != 0xF4 || b1.toNat < 0x90) && validUtf8 r
+      | _ => false
+    else false
+
+/-- is the number a Unicode scalar value (what a Python `str` element that can be encoded is)? -/
+def isScalar (c : Nat) : Bool := c < 0xD800 || (0xE000 ≤ c && c < 0x110000)
+
+/-- the UTF-8 bytes of one scalar value -/
+def utf8Char (c : Nat) : Bytes :=
+  if c < 0x80 then [BitVec.ofNat 8 c]
+  else if c < 0x800 then [BitVec.ofNat 8 (0xC0 + c / 64), BitVec.ofNat 8 (0x80 + c % 64)]
+  else if c < 0x10000 then
+    [BitVec.ofNat 8 (0xE0 + c / 4096), BitVec.ofNat 8 (0x80 + c / 64 % 64), BitVec.ofNat 8 (0x80 + c % 64)]
+  else
+    [BitVec.ofNat 8 (0xF0 + c / 262144), BitVec.ofNat 8 (0x80 + c / 4096 % 64),
+     BitVec.ofNat 8 (0x80 + c / 64 % 64), BitVec.ofNat 8 (0x80 + c % 64)]
+
+/-- `bytes(text, "utf-8")` of a text given by its code points; a lone surrogate (or a number that
+    is no code point) cannot be encoded: `UnicodeEncodeError` -/
+def utf8Encode : List Nat → Except Err Bytes
+  | [] => .ok []
+  | c :: cs =>
+    if isScalar c then (utf8Encode cs).bind fun r => .ok (utf8Char c ++ r) else .error .unicodeError
+
 /-! ### device side -/
 
 def cmninfoData (chmax flags rxpadding : Int) : Except Err Bytes :=
@@ -45,6 +102,10 @@ def chinfoData (c : ChanCfg) : Except Err Bytes :=
 
 def chinfoEncode (c : ChanCfg) : Except Err Bytes :=
   (chinfoData c).bind fun b => Serial.frameCreate idCHINFO (some b)
+
+/-- the encoder as the device calls it: the name is a text (code points) -/
+def chinfoEncodeText (en : Bool) (type vdim div mlen : Int) (text : List Nat) : Except Err Bytes :=
+  (utf8Encode text).bind fun name => chinfoEncode ⟨en, type, vdim, div, mlen, name⟩
 
 def ackData (r : Int) : Except Err Bytes := pack Gen.Fmt.ackEnc [.int r]
 
@@ -62,7 +123,8 @@ def cmninfoDecode (fr : Serial.Frame) : Except Err (Option (Nat × Nat × Nat)) 
     | .ok _ => .error .structError
     | .error e => .error e
 
-/-- text up to the first NUL: `_str.decode().split("\x00")[0]` on bytes -/
+/-- text up to the first NUL: `.split("\x00")[0]`, on the UTF-8 bytes (in well-formed UTF-8 the
+    byte 0 occurs only as the encoding of U+0000) -/
 def cstr (bs : Bytes) : Bytes := bs.takeWhile (· ≠ 0)
 
 /-- what the client learns about a channel: `DeviceChannel(chan, _type, vdim, name, bool(en), div, mlen)` -/
@@ -82,7 +144,9 @@ def chinfoDecode (fr : Serial.Frame) : Except Err (Option ChanInfo) :=
   else
     match unpack (Gen.Fmt.chinfoDec (fr.data.length - 5)) fr.data with
     | .ok [.int en, .int ty, .int vdim, .int div, .int mlen, .bytes s] =>
-      .ok (some ⟨en ≠ 0, ty.toNat, vdim.toNat, div.toNat, mlen.toNat, cstr s⟩)
+      -- `_str.decode()` of the whole field comes first: UnicodeDecodeError also for bytes after a NUL
+      if validUtf8 s then .ok (some ⟨en ≠ 0, ty.toNat, vdim.toNat, div.toNat, mlen.toNat, cstr s⟩)
+      else .error .unicodeError
     | .ok _ => .error .structError
     | .error e => .error e
 
